@@ -64,7 +64,7 @@ def translate():
                                    ('translate_scan.py', 'ScanTables', 'scan: arbitrary_precision number scanner'),
                                    ('translate_cursor.py', 'CursorTables', 'cursor: skipper / ident / whitespace / separators'),
                                    ('translate_ptr.py', 'PtrTables', 'ptr: pointer parameters'),
-                                   ('translate_map.py', 'MapTables', 'map: Map wrapper delegation'), ('translate_ser.py', 'SerTables', 'ser: Serializer / Compound methods')):
+                                   ('translate_ignore.py', 'IgnoreTables', 'ignore: the iterative skip scanner'), ('translate_map.py', 'MapTables', 'map: Map wrapper delegation'), ('translate_ser.py', 'SerTables', 'ser: Serializer / Compound methods')):
             tl = os.path.join(VERIF, 'tools', script)
             if not os.path.exists(tl):
                 continue
@@ -75,16 +75,16 @@ def translate():
             def differs():
                 return os.path.exists(tmp2) and os.path.exists(cur2) and open(tmp2).read() != open(cur2).read()
             if differs() and (time.sleep(3) or differs()):       # re-read once: a concurrent main-mode run may be rewriting the shared file
-                if gen in ('FmtTables', 'NumTables', 'KeyTables', 'EqTables', 'ScanTables', 'CursorTables', 'PtrTables', 'MapTables', 'SerTables'):
+                if gen in ('FmtTables', 'NumTables', 'KeyTables', 'EqTables', 'ScanTables', 'CursorTables', 'PtrTables', 'MapTables', 'SerTables', 'IgnoreTables'):
                     import difflib
                     d = [l for l in difflib.unified_diff(open(cur2).read().splitlines(), open(tmp2).read().splitlines(), lineterm='', n=0) if l[:1] in '+-' and not l.startswith(('+++', '---'))]
-                    broken.append('BROKEN %s:tables-changed (%s would have to be re-proved against the translated source): ' % {'FmtTables': ('fmt', 'Proofs/SerFmt.v'), 'NumTables': ('num', 'Proofs/NumAccSrc.v'), 'KeyTables': ('keys', 'Proofs/SerKeys.v'), 'EqTables': ('eq', 'Proofs/PointerEqSrc.v'), 'ScanTables': ('scan', 'Proofs/ScanSrc.v'), 'CursorTables': ('cursor', 'Proofs/CursorSrc.v'), 'PtrTables': ('ptr', 'Proofs/PointerSrc.v'), 'MapTables': ('map', 'Proofs/MapSrc.v'), 'SerTables': ('ser', 'Proofs/SerSrc.v')}[gen] + ' | '.join(x[:140] for x in d[:4]))
+                    broken.append('BROKEN %s:tables-changed (%s would have to be re-proved against the translated source): ' % {'FmtTables': ('fmt', 'Proofs/SerFmt.v'), 'NumTables': ('num', 'Proofs/NumAccSrc.v'), 'KeyTables': ('keys', 'Proofs/SerKeys.v'), 'EqTables': ('eq', 'Proofs/PointerEqSrc.v'), 'ScanTables': ('scan', 'Proofs/ScanSrc.v'), 'CursorTables': ('cursor', 'Proofs/CursorSrc.v'), 'PtrTables': ('ptr', 'Proofs/PointerSrc.v'), 'MapTables': ('map', 'Proofs/MapSrc.v'), 'SerTables': ('ser', 'Proofs/SerSrc.v'), 'IgnoreTables': ('ignore', 'Proofs/IgnoreSrc.v')}[gen] + ' | '.join(x[:140] for x in d[:4]))
                 else:
                     broken.append('BROKEN lexical tables changed (theorems about the generated lexical tables would have to be re-proved)')
         return broken, out
     rc, out = sh(['python3', os.path.join(VERIF, 'tools', 'translate.py'), '--repo', REPO])
     broken = [l for l in out.splitlines() if l.startswith('BROKEN')]
-    for script in ('translate_lex.py', 'translate_fmt.py', 'translate_num.py', 'translate_keys.py', 'translate_eq.py', 'translate_scan.py', 'translate_cursor.py', 'translate_ptr.py', 'translate_map.py', 'translate_ser.py'):
+    for script in ('translate_lex.py', 'translate_fmt.py', 'translate_num.py', 'translate_keys.py', 'translate_eq.py', 'translate_scan.py', 'translate_cursor.py', 'translate_ptr.py', 'translate_map.py', 'translate_ser.py', 'translate_ignore.py'):
         if os.path.exists(os.path.join(VERIF, 'tools', script)):
             rc2, out2 = sh(['python3', os.path.join(VERIF, 'tools', script), '--repo', REPO])
             broken += [l for l in out2.splitlines() if l.startswith('BROKEN')]
@@ -338,7 +338,7 @@ def tie_relevant(pid, broken_line):
         return pid in SER_PROPS
     if broken_line.startswith('BROKEN eq:') or broken_line.startswith('BROKEN ptr'):
         return pid == 'C18'
-    if broken_line.startswith('BROKEN cursor:'):
+    if broken_line.startswith('BROKEN cursor:') or broken_line.startswith('BROKEN ignore:'):
         return pid in ('C01', 'C02', 'C09', 'C10', 'C11', 'C12', 'C13', 'C14', 'C19')
     if broken_line.startswith('BROKEN scan:'):
         return pid in ('C20', 'C06', 'C01', 'C02', 'C09', 'C10', 'C11', 'C12', 'C13')
